@@ -70,7 +70,27 @@ def keepalive_table(ctx):
                     cs.append((("present",), val))
                     if [x for x in atom[1] if x.lower() != "connection"]:
                         lookup_ok = False
-        pconds.append((p, cs))
+        fs = PM.flag_set(p)
+        if fs == "?" and ("b", True) in PM.flag_closed | PM.flag_open:
+            # the gate is assigned a computed boolean (`self.done = ends_connection(&rq)`): when that boolean is itself one of the decision's
+            # atoms, the path stands for two -- one per outcome
+            v = absint.deep(p.state, p.state.read_key((1, "*", "." + PM.flag)))
+            a = PR.atom_of_cond(("scalar", v, True))
+            if a is not None and a[0][0] in ("contains", "version"):
+                atom, t_is = a            # the term is true  <=>  atom == t_is
+                if atom[0] == "contains":
+                    atoms_seen.add(("contains", atom[1]))
+                    if not any(re.search(r"to_ascii_lowercase$|to_lowercase$", x[1]) for x in absint.calls_in(atom[2][2][0])):
+                        hay_ok = False
+                    key = ("contains", atom[1])
+                else:
+                    atoms_seen.add(("version",) + atom[1:3])
+                    key = atom[:4]
+                for outcome in (True, False):
+                    closed = ("b", outcome) in PM.flag_closed and ("b", outcome) not in PM.flag_open
+                    pconds.append((p, cs + [(key, t_is == outcome)], closed))
+                continue
+        pconds.append((p, cs, fs))
     names = sorted(str(a) for a in atoms_seen)
     ctx.counts["C12.1 atoms"] = names
     need = {("present",)} | {("contains", t) for t in TOKENS}
@@ -104,16 +124,15 @@ def keepalive_table(ctx):
                 A = {"present": present, "version": ver}
                 A.update(dict(zip(TOKENS, toks)))
                 rows += 1
-                comp = [p for p, cs in pconds if all(holds(a, v, A) is not False for a, v in cs)]
+                comp = [(p, fs) for p, cs, fs in pconds if all(holds(a, v, A) is not False for a, v in cs)]
                 c, u, k = toks
                 v10 = ver == (1, 0)
                 want = (c or u or ((not k) and v10)) if present else v10
                 got = []
-                for p in comp:
+                for p, fs in comp:
                     if not (p.end[0] == "return" and p.ret() == ("some", PR.RQ)):
                         got.append("not delivered (%s)" % Q._ret_str(p))
                     else:
-                        fs = PM.flag_set(p)
                         got.append(bool(fs) if fs in (True, False, None) else "?")
                 if not comp or any(g != want for g in got):
                     bad.append((dict(A), got[:3], want))
@@ -128,11 +147,42 @@ def run_rest(ctx, PM, f, FLAG):
     # ---- C12.2 the flag gates every read and is never reset
     n = 0
     ctx.ob("C12.2", "flag-init|%s" % CC, "a new connection starts with the gate in one definite state (the open state)", len(PM.flag_open) == 1 and None not in PM.flag_open, PM.file, str(sorted(map(str, PM.flag_open))))
+    # blocks of the parser's entry point (helpers spliced in) that write the gate
+    wblocks = {}
+    for g, bb, kind, v in PM.flag_writes:
+        if kind != "construct":
+            wblocks[(g.id, bb)] = [i for i, b in enumerate(f.blocks) if (b.get("src") or f.id) == g.id and b.get("obb", i) == bb]
+    closed_entry_blocks = set()
+    for nv in sorted(x for x in PM.flag_closed if x is not None):
+        st = symex.Sym(f)
+        st.write_key((1, "*", "." + FLAG), PM.flag_term(nv))
+        for p in absint.explore(f, 0, st):
+            closed_entry_blocks |= set(p.blocks)
+    def reach(src):
+        seen, work = set(), [x for x in f.succs(src)]
+        while work:
+            x = work.pop()
+            if x in seen:
+                continue
+            seen.add(x)
+            work += f.succs(x)
+        return seen
     for g, bb, kind, v in PM.flag_writes:
         n += 1
         if kind != "construct":
+            ok = g.file == PM.file and v is not None and v not in PM.flag_open
+            detail = str(v)
+            if g.file == PM.file and v is None and kind == "assign" and wblocks.get((g.id, bb)):
+                # a computed value (`self.done = ends_connection(&rq)`): it may be the open value, which re-opens nothing as long as the gate is
+                # open whenever this write is reached -- it is unreachable when the gate was closed on entry, and no write of the gate
+                # (itself included, round a loop) can come before it in the same call
+                mine = wblocks[(g.id, bb)]
+                others = [b2 for k2, bs in wblocks.items() for b2 in bs]
+                after_write = any(m in reach(o) for o in others for m in mine)
+                ok = not (set(mine) & closed_entry_blocks) and not after_write
+                detail = "computed value; reached with the gate closed: %s; reached after another write of the gate: %s" % (bool(set(mine) & closed_entry_blocks), after_write)
             ctx.ob("C12.2", "flag-write|%s" % g.id, "the flag is only ever set (never reset to its initial state), to a known value, and only by the connection parser",
-                   g.file == PM.file and v is not None and v not in PM.flag_open, g.loc(bb), str(v))
+                   ok, g.loc(bb), detail)
     ctx.floor("C12.2 flag writes", n, 2)
     for nv in sorted(x for x in PM.flag_closed if x is not None):
         st = symex.Sym(f)
